@@ -44,6 +44,9 @@ type Prop struct {
 
 var registry = map[string]*Prop{}
 
+// RacePass is set by the instrumented build: runs the free-running bodies of C18 (used by the -race binary).
+var RacePass func(reps int) int
+
 // Register adds a property to the registry.
 func Register(p *Prop) { registry[p.ID] = p }
 
